@@ -4,6 +4,7 @@ import Model.ParseWhitelist
 import Gen.ParseDispatch
 import Proofs.ParseTop
 import Proofs.ParseExpr
+import Proofs.GoTables
 /-!
 # C24 — the forked parser parses extension-free Go like go/parser (see notes/C24.md)
 
@@ -110,21 +111,6 @@ theorem model_functions_pinned :
 
 /-! ### precedence tables -/
 
-/-- the reference table: go/token's `Precedence` switch as source text -/
-def stdPrecOf (name : String) : Nat :=
-  match stdPrecArms.find? (·.1 == name) with
-  | some a => a.2
-  | none => if stdPrecDefault == "LowestPrec" then lowestPrec else 99
-
-/-- the fork's table: evaluated through the function tokPrec calls -/
-def forkPrecOf (v : Nat) : Nat :=
-  match forkPrecEval.find? (·.1 == v) with
-  | some a => a.2
-  | none =>
-    match forkExtTokens.find? (·.2.1 == v) with
-    | some a => a.2.2
-    | none => 0
-
 /-- **precedence_equal**: the fork's tokPrec is token-identical to the reference's, calls go/token's Precedence,
     and the evaluated table equals the reference's source table on every token -/
 theorem precedence_equal :
@@ -142,33 +128,6 @@ end ParseTop
 
 namespace ParseExpr
 open Gen.ParseDispatch
-
-def tokValue (name : String) : Nat := (tokNames.idxOf name)
-
-/-- the tables of the real parsers -/
-def goTables : Tables :=
-  { binPrec := ParseTop.forkPrecOf
-    isUnary := fun o => forkUnaryArms.flatten.any fun n => tokValue n == o }
-
-theorem find_le5 (l : List (Nat × Nat)) (h : l.all (fun p => p.2 ≤ 5) = true) (v : Nat) (a : Nat × Nat)
-    (hf : l.find? (·.1 == v) = some a) : a.2 ≤ 5 := by
-  have := List.mem_of_find?_eq_some hf
-  have := List.all_eq_true.mp h a this
-  simpa using this
-
-theorem goTables_le5 : ∀ o, goTables.binPrec o ≤ 5 := by
-  intro o
-  show ParseTop.forkPrecOf o ≤ 5
-  unfold ParseTop.forkPrecOf
-  split
-  · rename_i a hf; exact find_le5 forkPrecEval (by decide) o a hf
-  · split
-    · rename_i a hf
-      have := List.mem_of_find?_eq_some hf
-      have h2 : forkExtTokens.all (fun e => e.2.2 ≤ 5) = true := by decide
-      have := List.all_eq_true.mp h2 a this
-      simpa using this
-    · omega
 
 /-- **parse_binary_prec**: for every expression tree that respects precedence and left associativity
     (`WF`: left operand binds at least as tightly, right operand strictly tighter, prefix operators apply to
